@@ -1,5 +1,6 @@
 import YV.Drv.S
 import YV.Model.YEnc
+import YV.Drv.V
 namespace YV.Drv.En
 open Lean YV YV.Y YV.SC YV.D YV.E YV.Drv YV.Drv.T YV.Drv.S
 
@@ -58,11 +59,46 @@ def handle (j : Json) : List (String × Json) :=
 end YV.Drv.En
 
 namespace YV.Drv.En
+open Lean YV YV.Y YV.T YV.V YV.Drv YV.Drv.T
+
+/-- `matchIdentityref`: only identityref members (through unions) -/
+partial def matchIdent : VT → Bytes → Bool
+  | .ident vals, v => vals.contains v
+  | .union ms, v => ms.any (matchIdent · v)
+  | _, _ => false
+
+def tamper2Type (name : String) : VT :=
+  let ids : List V.Ident :=
+    [⟨bytesOf "idm", bytesOf "base", none⟩, ⟨bytesOf "idm", bytesOf "one", some (bytesOf "idm", bytesOf "base")⟩,
+     ⟨bytesOf "idm", bytesOf "two", some (bytesOf "idm", bytesOf "one")⟩, ⟨bytesOf "m", bytesOf "local", some (bytesOf "idm", bytesOf "base")⟩]
+  let idref : VT := .ident (identVals ids (bytesOf "m") 10 (bytesOf "idm", bytesOf "base"))
+  match name with
+  | "idref" => idref
+  | "union-id-u16" => .union [idref, .num (.uint 16 [(0, 65535)]) {}]
+  | "union-u8-str" => .union [.num (.uint 8 [(0, 255)]) {}, .str (.str [(1, 2)] 0) {} []]
+  | _ => .union [.plain .bool, .union [idref, .num (.int 8 [(-128, 127)]) {}]]
+
+/-- `convertToDataNode` for one value: as written if the type accepts it; else, if it is qualified with the
+    leaf's own module name and the rest is an identity of an identityref member, that simple form -/
+def handleTamper2 (j : Json) : List (String × Json) :=
+  let ty := tamper2Type (jstr j "type")
+  let v := bytesOf (jstr j "val")
+  let pfx := bytesOf "m:"
+  let out :=
+    if (check ty v).isNone then "ok:" ++ Y.hexOf v
+    else if pfx.isPrefixOf v && matchIdent ty (v.drop pfx.length) then "ok:" ++ Y.hexOf (v.drop pfx.length)
+    else "err"
+  [("m", out), ("s", out)]
+
+end YV.Drv.En
+
+namespace YV.Drv.En
 open Lean YV YV.Y YV.T YV.SC YV.D YV.E YV.Drv YV.Drv.T YV.Drv.S
 
 /-- the tamper table: one leaf `x` of the given type, the document {"x": <literal>} -/
 def handleFuzz (j : Json) : List (String × Json) :=
-  if jstr j "mode" ≠ "tamper" then [("m", "total"), ("s", "total")]
+  if jstr j "mode" = "tamper2" then handleTamper2 j
+  else if jstr j "mode" ≠ "tamper" then [("m", "total"), ("s", "total")]
   else
     let base := jstr j "type"
     let lit := jstr j "lit"
@@ -85,3 +121,4 @@ def handleFuzz (j : Json) : List (String × Json) :=
     [("m", out), ("s", out)]
 
 end YV.Drv.En
+
